@@ -40,6 +40,7 @@ def spec():
         "/either": op("getEither", {"200": {"description": "ok", "content": {"application/json": {"schema": ref("Item")}, "text/plain": {"schema": st}}}}, tag="solo"),  # alone in its module: nothing else imports what its handler needs
         "/token": op("getVendorToken", {"200": {"description": "ok", "content": {"application/vnd.acme.token+json": {"schema": st}}}}),
         "/vitem": op("getVendorItem", {"200": {"description": "ok", "content": {"application/vnd.acme.item+json": {"schema": ref("Item")}}}}),
+        "/ndjson": op("tailItems", {"200": {"description": "ok", "content": {"application/x-ndjson": {"schema": ref("Item")}}}}),
         "/dflt": op("getWithDefault", {"200": js(ref("Item")), "default": js(ref("Err"), "err")}),
         "/shape": op("getShape", {"200": js(ref("Shape"))}),
     }
